@@ -484,6 +484,7 @@ def run(ctx):
             if bad is None and seen != {"neg", "nonneg"}:
                 bad = "paths seen: %s" % sorted(seen)
         ctx.inst("R11.8", "remain-margin-tree:%s" % short_fn(f), bad is None, f.where(), bad or "funding, latest fraction, margin and bad debt have the required trees on both sign branches")
+    funding_shortcut_instances(ctx, "R11.8")
 
     # ---------------------------------------------------------------- R11.7
     # a position stored with the margin of a remain-margin result has been charged at most its margin; what exceeds it is
